@@ -123,7 +123,8 @@ def build_coq(ctx):
         to = 3000 if ctx.tier == "thorough" else 1500
         if ctx.tier == "thorough" and ctx.cfg.get("clean_thorough", False):
             sh(["make", "clean"], cwd=COQ, timeout=120)
-        rc, out = sh(["make", "-j16", target[:-2] + ".vo"], cwd=COQ, timeout=to)
+        libs = [l for l in ctx.cfg.get("libs", ["theories/CaseLib.vo"])]
+        rc, out = sh(["make", "-j16", target[:-2] + ".vo"] + libs, cwd=COQ, timeout=to)
     files = cone(os.path.join(COQ, target))
     nobl = 0
     for f in files:
